@@ -88,7 +88,7 @@ fn pick_n(rng: &mut Rng, allow_wide: bool, wide_share_pct: u32, min_n: usize) ->
         const WIDE: [usize; 8] = [25, 33, 40, 65, 66, 129, 130, 160];
         if rng.chance(1, 40) {
             // beyond 1024 (only the shapes whose build() is cheap, see family_edges)
-            [1030, 1100][rng.below(2)]
+            [1030, 1100, 2100][rng.below(3)]
         } else if rng.chance(1, 12) {
             [257, 300][rng.below(2)]
         } else {
@@ -297,6 +297,7 @@ pub fn gen_graph(rng: &mut Rng, n: usize, decl_mode: DeclMode) -> GraphSpec {
             from: perm[a],
             to: perm[b],
             kind,
+            batch: 0,
         });
     }
     rng.shuffle(&mut calls);
@@ -323,6 +324,7 @@ pub fn gen_graph(rng: &mut Rng, n: usize, decl_mode: DeclMode) -> GraphSpec {
                         from: c.to,
                         to: c.from,
                         kind: c.kind,
+                        batch: 0,
                     });
                 }
                 2 => {
@@ -331,6 +333,7 @@ pub fn gen_graph(rng: &mut Rng, n: usize, decl_mode: DeclMode) -> GraphSpec {
                         from: a,
                         to: a,
                         kind: EdgeKind::Logic,
+                        batch: 0,
                     });
                 }
                 _ => {
@@ -344,10 +347,42 @@ pub fn gen_graph(rng: &mut Rng, n: usize, decl_mode: DeclMode) -> GraphSpec {
                             from: a,
                             to: b,
                             kind: EdgeKind::Logic,
+                            batch: 0,
                         },
                     );
                 }
             }
+        }
+    }
+
+    // the batch forms of the builder API: some consecutive same-kind calls become one
+    // `add_*_edges([..])` call; a batch may restate an earlier edge and contain an
+    // edge that is rejected
+    if calls.len() >= 2 && rng.chance(1, 5) {
+        let mut next_id = 1u32;
+        let mut i = 0;
+        while i + 1 < calls.len() {
+            let len = rng.range(2, 3).min(calls.len() - i);
+            if rng.chance(1, 2) && (i..i + len).all(|k| calls[k].kind == calls[i].kind) {
+                for k in i..i + len {
+                    calls[k].batch = next_id;
+                }
+                next_id += 1;
+                i += len;
+            } else {
+                i += 1;
+            }
+        }
+        if rng.chance(1, 3) && n >= 2 {
+            // a batch that restates an accepted edge and then closes a cycle
+            let c = calls[rng.below(calls.len())].clone();
+            calls.push(EdgeCall { batch: next_id, ..c.clone() });
+            calls.push(EdgeCall {
+                from: c.to,
+                to: c.from,
+                kind: c.kind,
+                batch: next_id,
+            });
         }
     }
 
